@@ -161,6 +161,7 @@ def gen(rng, tier):
             eps = rng.sample(both, rng.randint(1, min(3, len(both))))
     return {"c0": c0, "c1": c1, "kind": kind, "startpoints": sps, "endpoints": eps,
             "repeat": rng.random() < 0.3, "as_list": rng.random() < 0.3,
+            "arg_form": rng.choice((None, None, None, None, "str", "dup", "iter")),
             "peer": {"seed": rng.getrandbits(32), "policy": rng.choice(("inputs_first", "random", "inputs_last",
                                                                         "prefer_true", "prefer_false"))}}
 
@@ -199,7 +200,21 @@ def run(case, ctx):
     if (sp0 - S) or (sp1 - S):
         ctx.probe("untied_startpoint")
     kw = {}
-    box = list if case.get("as_list") else set
+    form = case.get("arg_form") or ("list" if case.get("as_list") else "set")
+
+    def box(names):
+        # how a caller may hand over a selection of names: set, list, list with a repeated name, one-shot iterable,
+        # or - for a single name - the bare string
+        names = list(names)
+        if form == "str" and len(names) == 1:
+            return names[0]
+        if form == "dup" and names:
+            return names + [names[0]]
+        if form == "iter":
+            return (n for n in names)
+        return names if form == "list" else set(names)
+    if form in ("str", "dup", "iter"):
+        ctx.probe("arg_form:" + form)
     if case["startpoints"] is not None:
         kw["startpoints"] = box(case["startpoints"])
         if not case["startpoints"]:
@@ -207,7 +222,9 @@ def run(case, ctx):
     if case["endpoints"]:
         kw["endpoints"] = box(case["endpoints"])
     b0, b1 = ref.snapshot(c0), (ref.snapshot(c1) if c1 is not None else None)
-    if case.get("repeat"):
+    if form == "iter":
+        ctx.twice = ctx.stale = False        # a one-shot iterable can be handed over once
+    if case.get("repeat") and form != "iter":
         # a caller comparing in a loop passes the same startpoints / endpoints objects to every call;
         # the miter examined below is the one from the second call
         ctx.probe("repeated_call_same_objects")
@@ -285,6 +302,8 @@ def shrink(case):
         yield dict(case, repeat=False)
     if case.get("as_list"):
         yield dict(case, as_list=False)
+    if case.get("arg_form"):
+        yield dict(case, arg_form=None)
     if case["peer"].get("policy") != "inputs_first":
         yield dict(case, peer=dict(case["peer"], policy="inputs_first"))
 
